@@ -120,13 +120,21 @@ func judgeReflexive(c *Ctx, t gen.Term) {
 // spellVariants returns the terms for one id: spellings x case variants.
 func spellVariants(u *gen.Universe, id string, withCase bool) []gen.Term {
 	var out []gen.Term
-	for sp := 0; sp < 4; sp++ {
+	for sp := 0; sp <= gen.SpOnlyPlus; sp++ {
 		if u.SpellOK(id, sp) {
 			out = append(out, gen.Term{ID: id, Spell: sp})
 		}
 	}
 	if withCase {
 		out = append(out, gen.Term{ID: id, Case: gen.CaseLower}, gen.Term{ID: id, Case: gen.CaseUpper})
+		// a case variant together with a suffix / '+' (only for a sample of ids: the products are large)
+		if h := gen.HashStr(id); h%4 == 0 {
+			for _, sp := range []int{gen.SpPlus, gen.SpOnly, gen.SpLater, gen.SpLaterPlus, gen.SpOnlyPlus} {
+				if u.SpellOK(id, sp) {
+					out = append(out, gen.Term{ID: id, Spell: sp, Case: gen.CaseLower}, gen.Term{ID: id, Spell: sp, Case: gen.CaseMixed, CaseKey: h})
+				}
+			}
+		}
 	}
 	return out
 }
